@@ -3,7 +3,8 @@
 
 Proved in Coq (coq/Properties_C07.v over the model coq/XConstProp.v, a function-for-function port of xcmp.hpp's
 ConstProp / OptimiseExpr / genConst): folding and rewriting preserve the reference value of every expression
-(C07_fold_agrees ...), every rewrite agrees for all 32-bit operands, the instruction genConst emits loads
+(C07_fold_agrees_partial, C07_fold_agrees_wrap_partial: the pure fragment of expressions only; the full statement
+C07_fold_agrees_full is a Definition, not proved), every rewrite agrees for all 32-bit operands, the instruction genConst emits loads
 v mod 2^32; and the refutation: an ordering operator folded at compile time follows the mathematical order while
 the run-time code follows the sign of the wrapped difference.
 
@@ -445,7 +446,7 @@ def classify_job(arg):
             return differs(t, m)
         if not do_shrink:
             return {'kind': kind, 'tree': tree, 'modes': list(modes), 'witness': witness, 'evaluations': evals[0]}
-        (t, m), used = G.shrink(witness[0], witness[1], fails, budget=120)
+        (t, m), used = G.shrink(witness[0], witness[1], fails, budget=80)
         r = pair_differs(t, m, ctx, vs, vi, st)
         res = r[1] if r else None
         info = {'kind': kind, 'tree': t, 'modes': m, 'ctx': ctx, 'var_scope': vs, 'var_init': vi, 'style': st, 'evaluations': evals[0],
@@ -637,7 +638,10 @@ def main():
                               'g++ -fsanitize=signed-integer-overflow as the detector of C++ signed overflow']
     ck.assumptions = ['a pair = one expression tree in one context; variant with literal/val leaves vs reference with every value in a variable assigned at run time',
                       'observed: end of run, all 32 bits of the exit value and the (stream, byte) outputs on the extracted Isa.step',
-                      'operands of and/or/~ are truth values (the property\'s quantifier); programs that wrap around or are otherwise undefined for XSem are still compared pairwise']
+                      'operands of and/or/~ are truth values (the property\'s quantifier); programs that wrap around or are otherwise undefined for XSem are still compared pairwise',
+                      'PROVED ONLY FOR THE PURE FRAGMENT: C07_fold_agrees_partial / C07_fold_agrees_wrap_partial cover expressions without calls, input/output and array reads '
+                      '(XSem.eval_const with an arbitrary environment); expressions with calls, effects and subscripts, and the full interpreter XSem.eval '
+                      '(Definition C07_fold_agrees_full, not proved) rest on the paired-program oracle: effectful operands, array index shapes, constant conditions are generated']
     if os.path.exists(os.path.join(vlib.COQ, 'Properties_%s.v' % PID)):
         ok = ck.proofs()
         ck.log('proofs', 'ok' if ok else 'BROKEN')
@@ -741,7 +745,9 @@ def summarise(ck, results, pool, mode):
     ck.cov['rule'] = ('pair = (expression tree, context, leaf assignment with at least one compile-time leaf) compared with the all-variable program of the same tree; '
                       'trees: every operator over the special leaves {0,+-1,+-2,+-127,+-128,+-65535,+-65536,+-65537,2^31-1,-2^31,-2^31+1}, every (outer, inner) operator '
                       'pair at both operand positions, an operator pair over random operands to depth 4, random typed trees, wrapping sums/differences; '
-                      'contexts: assignment, exit actual, if / while condition, call actual, return value, subscript, and pick(K, .., idf(E), .., K) with equal constants K (immediate, val, pool) around an actual that contains a call; '
+                      'contexts: assignment, exit actual, if / while condition (truth values and arbitrary integers, both branches observable), call actual, return value, subscript, '
+                      'array index shapes K-e, e-K, K+e, e+K, K-(e-J), (K-e)+J, J+(e-K), (e+J)-K read and assigned on global arrays and array formals, operands that call a counting function '
+                      'next to compile-time constant truth values, and pick(K, .., idf(E), .., K) with equal constants K (immediate, val, pool) around an actual that contains a call; '
                       'scopes: global / local variables, locals hiding global vals, and a decoy procedure defined earlier whose local vals carry the names of the global vals; '
                       'distinct by SHA-1 of (tree, context, const/var pattern); non-trivial = at least one compile-time leaf')
     ck.cov['families'] = fams
@@ -812,7 +818,7 @@ def summarise(ck, results, pool, mode):
         for key, l in sorted(by_shape.items(), key=lambda kv: repr(kv[0])):
             l.sort(key=lambda gp: G.size(gp[0]['tree']))
             todo += l[:3]
-        todo = todo[:48]
+        todo = todo[:24]
         ck.log('kinds %s; minimising %d' % (kinds_all, len(todo)))
         infos = pool.map(classify_job, [(g, p['modes'], True) for g, p in todo])
         seen = set()
